@@ -72,6 +72,8 @@ type loopInfo struct {
 	headNextobj string
 	decAtHead   string
 	headGhost   map[string]string
+	preNext     string // allocation counter at loop entry
+	appendFresh bool   // appends to loop-carried slices: in-place targets must be objects allocated since loop entry
 }
 
 type Gen struct {
@@ -117,7 +119,7 @@ type Gen struct {
 	boolDef      map[int]bool      // prefix lines kept in sliced contexts: definitions and type-range facts
 	marks        map[string]int    // named positions in the prefix
 	ghostSorts   map[string]string
-	hoisted      map[*ssa.Alloc]string
+	hoisted      map[ssa.Instruction]string
 }
 
 func (g *Gen) ghostSortOf(name string) string {
@@ -470,7 +472,7 @@ func hoistable(al *ssa.Alloc) bool {
 // allocAt: allocation for an Alloc instruction.
 func (g *Gen) allocAt(al *ssa.Alloc) string {
 	if g.hoisted == nil {
-		g.hoisted = map[*ssa.Alloc]string{}
+		g.hoisted = map[ssa.Instruction]string{}
 	}
 	if obj, ok := g.hoisted[al]; ok {
 		for _, s := range g.sorts {
@@ -640,7 +642,7 @@ func (g *Gen) run() {
 	g.nextobj = g.nextobj0
 	g.reach = "true"
 	// stack locals allocated inside loops: one object per site, reserved at entry
-	g.hoisted = map[*ssa.Alloc]string{}
+	g.hoisted = map[ssa.Instruction]string{}
 	if len(fn.Blocks) > 0 {
 		g.findLoops()
 		nh := 0
@@ -653,6 +655,17 @@ func (g *Gen) run() {
 					obj := g.def("obj_"+al.Comment, "Int", fmt.Sprintf("(+ nextobj0 %d)", nh))
 					g.hoisted[al] = obj
 					nh++
+				}
+				// boxes of array/struct values converted to interfaces: immutable copies, one object per site
+				if mi, ok := ins.(*ssa.MakeInterface); ok {
+					if _, isPtr := mi.X.Type().Underlying().(*types.Pointer); !isPtr {
+						switch mi.X.Type().Underlying().(type) {
+						case *types.Array, *types.Struct:
+							obj := g.def("obj_box", "Int", fmt.Sprintf("(+ nextobj0 %d)", nh))
+							g.hoisted[mi] = obj
+							nh++
+						}
+					}
 				}
 			}
 		}
@@ -761,6 +774,9 @@ func (g *Gen) wellFormed(v *Val, nextobj string, nilable bool) string {
 			if isPtr && !nilable {
 				ps = append(ps, fmt.Sprintf("(>= %s 1)", v.S[i]))
 			}
+		case "ref":
+			// interface / map / chan / func values refer to objects that already exist
+			ps = append(ps, fmt.Sprintf("(< %s %s)", v.S[i], nextobj))
 		}
 	}
 	if _, ok := v.T.Underlying().(*types.Slice); ok {
